@@ -230,3 +230,7 @@ pub(crate) fn repair_snapshots<S: IndexedFull>(
 
     Ok(())
 }
+
+#[cfg(kani)]
+#[path = "/verif/harness/commands_repair_snapshots.rs"]
+pub(crate) mod verif_harness;
